@@ -5,6 +5,4 @@ CONSTANTS N = 5
           Modes = {"fixed"}
           Buggy = TRUE
           EverySecond = FALSE
-INVARIANT AbsInv
 INVARIANT ExitAgrees
-PROPERTY StepsRefine
